@@ -1,5 +1,5 @@
 """C04 — every reported value equals its wire expression on the recorded witness."""
-import tracecheck, progs
+import tracecheck, progs, matrixcases
 
 PID = "C04"
 PROFILE = {"p_ignore": 0.35, "weights": dict(input=0.10, const=0.08, bin=0.45, un=0.06, meth=0.12, ite=0.05, guarded=0.12, ignore=0.01, list=0.01)}
@@ -37,7 +37,9 @@ def post(cov, cases, recs):
 
 
 def run(tier, seed):
-    return tracecheck.run(PID, tier, seed, PROFILE, oracle, n_quick=450, n_thorough=6000, mask=1 | 4 | 32, mutation_oracle=True, post=post,
+    pending = matrixcases.bigdiv_cases() + matrixcases.hash_then_use()
+    return tracecheck.run(PID, tier, seed, PROFILE, oracle, n_quick=len(pending) + 450, n_thorough=len(pending) + 6000, mask=1 | 4 | 32, mutation_oracle=True, post=post,
+                          casegen=matrixcases.with_pending(pending, PROFILE),
                           extra_assumptions=["C04_coherent_on_final_witness_partial assumes scoped_cmds (computed and checked true on every case of this run)",
                                              "the recorder's assignment is what a file-writing backend would be handed (C10-C12 check the files)"])
 
